@@ -56,9 +56,11 @@ func VProxyFailures() string {
 	return sb.String()
 }
 
-func VConsts() string {
-	return fmt.Sprintf("max=%d quiesce=%d ttl=%d cleanup=%d hour=%d", maxConsecutiveFailures,
-		int64(reloadFailureQuiesce), int64(proxyFailureTTL), int64(proxyFailureCleanupInterval), int64(time.Hour))
+func VConsts() string { return fmt.Sprintf("max=%d", maxConsecutiveFailures) }
+
+// VParams: the durations the property does not fix; handed to the model as parameters, not compared.
+func VParams() (quiesce, ttl, cleanup time.Duration) {
+	return reloadFailureQuiesce, proxyFailureTTL, proxyFailureCleanupInterval
 }
 
 // VSetDump prints "<idx><a|i>[n:lat,...]m=<n|->:<minLat>" from the set's real fields.
